@@ -321,6 +321,10 @@ func genProxy(rng *mrand.Rand, n int, tier string, w *bufio.Writer) {
 		paused := map[string]bool{}
 		heldAtGate := map[string]int{}
 		deploy := func(svc string, rollout bool) {
+			// two generations created at the same virtual instant would share their probe-tick phase, and a
+			// target's tick would then coincide with its own disposal (an exact tie of two timers, whose
+			// order is goroutine scheduling): shift the clock by a unique sub-microsecond amount first
+			fmt.Fprintf(w, "advance ns=%d\n", dur(1000))
 			ts := targetsOf(svc, rollout)
 			known = append(known, ts...)
 			for _, tn := range ts {
